@@ -22,8 +22,8 @@ package op
 //@   ensures [sum] len(line) >= 1 ==> result == lenTo(line, len(line) - 1)
 //@   modifies nothing
 //@   loop 1 `for i := 0; i < len(line)-1; i++`
-//@     invariant [sum] 0 <= i && (len(line) >= 1 ? i <= len(line) - 1 : i == 0) && l == lenTo(line, i)
-//@     decreases len(line) - i
+//@     invariant [sum] 0 <= #1 && (len(line) >= 1 ? #1 <= len(line) - 1 : #1 == 0) && l == lenTo(line, #1)
+//@     decreases len(line) - #1
 
 // ---- used by package route (C19) ----
 
